@@ -700,7 +700,7 @@ func runC14(w *World, r *Report) {
 			r.OK("C14.parts-independent", fmt.Sprintf("ConcatMessages: %d per-part appends", n), cm.Pos(), "each guarded by tests of its own part only")
 		}
 		if n < 3 {
-			undecidedf("C14.parts-independent: only %d per-part appends found in ConcatMessages", n)
+			r.Deferred = append(r.Deferred, fmt.Sprintf("C14.parts-independent: only %d per-part appends found in ConcatMessages", n))
 		}
 	}
 
